@@ -1,6 +1,6 @@
 (* Props/C10.v — decoding allocates memory in proportion to the input, never to a claimed length. *)
 From FP.Props Require Import Common C09.
-From FP.Theory Require Import DecSafe CostBound.
+From FP.Theory Require Import DecSafe CostBound Steps.
 From FP.Gen Require Import Helpers.
 From Coq Require Import Strings.String.
 Local Open Scope N_scope.
@@ -67,6 +67,17 @@ Qed.
 Theorem C10_claimed_lengths_are_not_trusted : forall p buf, cost_prim p buf <= prim_S p + prim_K p * lenN buf.
 Proof. exact cost_prim_any. Qed.
 
+(* the same bound for WORK (C09: no input makes a decoder run long): reader calls + loop iterations + nested decodes,
+   counted on the same recursion with unit charges, never exceed the allocation count *)
+Theorem C09_work_bounded_by_input : forall t buf, known t = true -> steps_env tables schemas t buf <= S_max + K_max * lenN buf.
+Proof.
+  intros t buf Hk. exact (steps_bound tables schemas t buf _ (C10_allocation_bounded_by_input t buf Hk)).
+Qed.
+Example C09_work_nonvacuous :
+  steps_env tables schemas id_risk_bin_NewOrder [x00; x00; x00; x02; x41; x42] = 3 /\
+  2 <=? steps_env tables schemas id_szse_bin_SzseBinary [x00; x00; x00; x09; x00; x00; x00; x04; xff; xff; xff; xff] = true.
+Proof. vm_compute. split; reflexivity. Qed.
+
 (* non-vacuity and the anchors' examples: 7 bytes claiming a 4 GiB text, a frame claiming 2^32-1 list elements *)
 Example C10_hostile_inputs :
   cost id_risk_bin_NewOrder [xff; xff; xff; xf0; x00; x00; x00] <=? 200 = true /\
@@ -77,3 +88,4 @@ Proof. vm_compute. repeat split; reflexivity. Qed.
 Print Assumptions C10_allocation_bounded_by_input.
 Print Assumptions C10_allocation_bounded_by_consumption.
 Print Assumptions C10_claimed_lengths_are_not_trusted.
+Print Assumptions C09_work_bounded_by_input.
